@@ -1,6 +1,7 @@
 From Coq Require Import List Arith Bool String.
 From Wire Require Import Sets Acyclic Solve Names Front Exec Model Emit Cli CopyAst ModelThms NamesThms Bridge ProcessWF Perm PermModel EmitThms Regroup RegroupModel.
 From Wire Require Show.
+From Wire Require Rename.
 Import ListNotations.
 
 (* The property theorems.  This file contains nothing but statements closed by [exact lemma] and the
@@ -157,6 +158,26 @@ Proof.
   exists pm'. split; [exact H1|]. split; [exact C|]. intros out. apply regroup_same_plan; auto.
 Qed.
 Print Assumptions C10_regrouping_preserves_analysis.
+
+(* ------------------------------------------------------------------ C15 (renaming pass of rewritePkgRefs) *)
+(* for every copied declaration whose identifier occurrences agree per object: the pass never makes two identifiers
+   coincide that did not coincide in the source (equal outputs: same object, or same source name and both left
+   alone), renames each object consistently, gives renamed objects names outside the file scope and outside the
+   node, and leaves every other identifier as written *)
+Theorem C15_renaming_never_captures : forall (scope : list string) (xs0 : list Rename.occ),
+  (forall x y o, In x xs0 -> In y xs0 -> Rename.o_obj x = Some o -> Rename.o_obj y = Some o ->
+     Rename.o_name x = Rename.o_name y /\ Rename.o_local x = Rename.o_local y) ->
+  let used := map Rename.o_name xs0 in
+  let ps := snd (Rename.rpass scope used [] xs0) in
+  map fst ps = xs0 /\
+  (forall p q, In p ps -> In q ps -> snd p = snd q ->
+     (exists o, Rename.o_obj (fst p) = Some o /\ Rename.o_obj (fst q) = Some o) \/
+     (Rename.o_name (fst p) = Rename.o_name (fst q) /\ snd p = Rename.o_name (fst p) /\ snd q = Rename.o_name (fst q))) /\
+  (forall p q o, In p ps -> In q ps -> Rename.o_obj (fst p) = Some o -> Rename.o_obj (fst q) = Some o -> snd p = snd q) /\
+  (forall p, In p ps -> snd p = Rename.o_name (fst p) \/
+     (~ In (snd p) scope /\ ~ In (snd p) used /\ Rename.wants scope (fst p) = true)).
+Proof. intros scope xs0 H. exact (Rename.rename_no_capture scope xs0 H). Qed.
+Print Assumptions C15_renaming_never_captures.
 
 (* ------------------------------------------------------------------ C09 *)
 Theorem C09_results : forall rs c e, func_output rs = FoOk c e <-> legal_results rs c e.
